@@ -5,9 +5,12 @@
 #include <string>
 #include <unordered_map>
 
+class Interpreter;
+
 class EnumManager {
   public:
-    EnumManager() = default;
+    explicit EnumManager(Interpreter *interpreter = nullptr)
+        : interpreter_(interpreter) {}
     ~EnumManager() = default;
 
     // enum定義の登録
@@ -15,12 +18,13 @@ class EnumManager {
                        const EnumDefinition &definition);
 
     // enum定義の取得
-    const EnumDefinition *
-    get_enum_definition(const std::string &enum_name) const;
+    // "Maybe<long>" that is not registered yet is instantiated from the generic
+    // enum Maybe<T> on first lookup (hence not const).
+    const EnumDefinition *get_enum_definition(const std::string &enum_name);
 
     // enum値の取得 (EnumName::member_name -> value)
     bool get_enum_value(const std::string &enum_name,
-                        const std::string &member_name, int64_t &value) const;
+                        const std::string &member_name, int64_t &value);
 
     // enum値の検証（重複チェック）
     bool validate_enum_definition(const EnumDefinition &definition,
@@ -35,11 +39,17 @@ class EnumManager {
     // Rust風enum（関連値を持つバリアントがあるenum）かどうか。
     // Such an enum's unit variants (E::A, Option<T>::None) are enum values
     // too, unlike the members of a plain C-style enum, which are integers.
-    bool has_associated_values(const std::string &enum_name) const;
+    bool has_associated_values(const std::string &enum_name);
 
   private:
+    Interpreter *interpreter_;
+
     // enum名 -> EnumDefinition のマッピング
     std::unordered_map<std::string, EnumDefinition> enum_definitions_;
+
+    // "Maybe<long>" をジェネリックenum Maybe<T> から必要時にインスタンス化
+    const EnumDefinition *
+    instantiate_generic_enum(const std::string &enum_name);
 
     // 重複値チェックのヘルパー関数
     bool
